@@ -95,6 +95,47 @@ Proof.
 Qed.
 Print Assumptions C10_notify_iff_changed.
 
+(* The same for the error path: in the steady regime every error reported by the main
+   protocol's updater reaches playstatus_error of the user's listener, in order, and no
+   error of another protocol does.  (That errors obey "only the active protocol" and
+   "nothing after stop/close" in general is part of C10_only_active_protocol,
+   C10_silent_after_stop and C10_silent_after_close: is_push covers DErr.) *)
+Theorem C10_errors_forwarded_in_steady_state :
+  forall c m body,
+    main_of (regs c) None = Some m -> quiet body = true ->
+    errs (outs c init (Start :: body ++ [RunAll])) =
+      filter (fun p => p =? m) (posted_errs body).
+Proof.
+  intros c m body M Q.
+  rewrite outs_cons. simpl.
+  set (s1 := set_push init (set_lis_all (regs c) (lis init) true) true false).
+  assert (S1 : streaming c m s1).
+  { unfold streaming. simpl. repeat split; [exact M|].
+    unfold set_lis_all. apply main_spec in M as [M _]. apply memb_in in M. now rewrite M. }
+  assert (Q' : quiet (body ++ [RunAll]) = true).
+  { unfold quiet. rewrite forallb_app. unfold quiet in Q. now rewrite Q. }
+  pose proof (errors_gen c m (body ++ [RunAll]) s1 S1 Q') as H.
+  rewrite final_runall_queue, posted_errs_snoc_run in H. simpl in H.
+  now rewrite app_nil_r in H.
+Qed.
+Print Assumptions C10_errors_forwarded_in_steady_state.
+
+(* an error scheduled before stop() / close() is not delivered after it: instances of the two
+   silence theorems, spelled out because this path was once forgotten *)
+Theorem C10_error_queued_before_stop_or_close :
+  forall c p,
+    pushes (outs c init [Start; Err p; Stop; RunAll]) = [] /\
+    pushes (outs c init [Start; Err p; Close; RunAll]) = [].
+Proof.
+  intros c p. split.
+  - destruct (C10_silent_after_stop c [Start; Err p] [RunAll] eq_refl) as [E S].
+    change ([Start; Err p; Stop; RunAll]) with ([Start; Err p] ++ Stop :: [RunAll]).
+    rewrite E, pushes_app, S, app_nil_r. reflexivity.
+  - change ([Start; Err p; Close; RunAll]) with (([Start; Err p] ++ [Close]) ++ [RunAll]).
+    rewrite outs_app, pushes_app, C10_silent_after_close, app_nil_r. reflexivity.
+Qed.
+Print Assumptions C10_error_queued_before_stop_or_close.
+
 (* Volume: the listener calls are exactly the adjacent unequal pairs (old, new) of the
    values fed to the comparer, starting from the initial value; stated for any moment of
    any run: calls made so far ++ calls still owed for the scheduled values = the calls
